@@ -1239,6 +1239,32 @@ def pair_renaming(rng: random.Random, pairs: list[tuple[str, str, str]], domain:
 	return mapping, tags
 
 
+def reverse_order_renaming(domain: dict[str, str], idents: set[str], reserved: Reserved, kinds: Any = None) -> dict[str, str]:
+	"""ONE legal renaming after which the identifiers of every kind (or of the given kinds) sort in the OPPOSITE alphabetical order:
+	the i-th smallest name gets the prefix `z<9-i>`-like marker that decreases as i grows. Any list of user names that is emitted
+	in spelling order instead of declaration / first-use order (type parameters of classes, methods and functions, captures,
+	enum members, base classes, parameters) changes under it."""
+	mapping: dict[str, str] = {}
+	taken = set(idents)
+	for kind in sorted(set(domain.values())):
+		if kinds is not None and kind not in kinds:
+			continue
+		ids = sorted(n for n, k in domain.items() if k == kind)
+		if len(ids) < 2:
+			continue
+		for i, x in enumerate(ids):
+			us = '_' * min(Reserved.underscore_class(x), 2)
+			core = x.lstrip('_')
+			rank = len(ids) - 1 - i
+			marker = ('Z' if core[:1].isupper() else 'z') * (1 + rank // 26) + chr(ord('a') + rank % 26)
+			new = f'{us}{marker}_{core}' if not core[:1].isupper() else f'{us}{marker.capitalize()}{core}'
+			if new in taken or not IDENT_RE.fullmatch(new) or not reserved.fresh_ok(new, x, kind):
+				continue
+			mapping[x] = new
+			taken.add(new)
+	return mapping
+
+
 AFFIX_GROUP = {'class': 'class', 'nested-class': 'class', 'function': 'callable', 'method': 'callable', 'closure': 'callable'}
 
 
@@ -1247,11 +1273,13 @@ def affix_stems(extra: Any = ()) -> dict[str, list[str]]:
 	classes, callable words for functions / methods, the rest for variables. From RESERVED_STEMS and the words of the generated
 	name table that are compared with callees / types (`extra`)."""
 	words = sorted({w for w in [*RESERVED_STEMS, *extra] if IDENT_RE.fullmatch(w) and len(w) > 1})
+	dunder = [w for w in words if w.startswith('__')]   # `__init__`, `__name__`, `__module__`, `__qualname__`, `__py_copy__`: first in every group
 	cls_like = [w for w in words if w[0].isupper() or w in ('int', 'float', 'bool', 'str', 'list', 'dict', 'type', 'object', 'const', 'tuple', 'set')]
 	call_like = [w for w in words if w not in cls_like and w in ('init', '__init__', 'len', 'print', 'range', 'enumerate', 'new', 'delete', 'operator', 'function', 'closure', 'method',
 		'items', 'keys', 'values', 'append', 'pop', 'get', 'copy', 'raw', 'on', 'ref', 'addr', 'isinstance', 'issubclass', 'char', 'super', 'lambda', 'def')]
 	var_like = [w for w in words if w not in cls_like]
-	return {'class': cls_like, 'callable': call_like or var_like, 'var': var_like}
+	first = lambda ws: [*dunder, *[w for w in ws if w not in dunder]]  # noqa: E731
+	return {'class': cls_like, 'callable': first(call_like or var_like), 'var': first(var_like)}
 
 
 def affix_renaming(rng: random.Random, domain: dict[str, str], idents: set[str], reserved: Reserved, stems: dict[str, list[str]], c: int, side: int) -> dict[str, str]:
@@ -1265,11 +1293,15 @@ def affix_renaming(rng: random.Random, domain: dict[str, str], idents: set[str],
 		words = stems[AFFIX_GROUP.get(kind, 'var')]
 		if not words:
 			continue
-		for t, x in enumerate(ids[:3]):
-			stem = words[(c + 5 * t + 3 * ki) % len(words)].strip('_') or 'init'
-			filler = rng.choice(['x', 'q2', 'Sub', 'zz', 'State']) if AFFIX_GROUP.get(kind) == 'class' else rng.choice(['x', 'q2', 'sub', 'zz', 'n'])
+		grouped = AFFIX_GROUP.get(kind) in ('class', 'callable')
+		for t, x in enumerate(ids[:8] if grouped else ids[:3]):
+			# classes, functions and methods: EVERY identifier gets word number c (told apart by the filler); variables rotate
+			word = words[c % len(words)] if grouped else words[(c + 5 * t + 3 * ki) % len(words)]
+			fillers = ['State', 'Sub', 'Zz', 'Old', 'Raw', 'My', 'Top', 'Low'] if AFFIX_GROUP.get(kind) == 'class' else ['late', 'q2', 'sub', 'post', 're', 'do', 'pre', 'aft']
+			filler = fillers[t % 8] + ('' if kind in ('class', 'function') else 'm') if grouped else rng.choice(['x', 'q2', 'sub', 'zz', 'n'])
 			us = '_' * min(Reserved.underscore_class(x), 2)
-			new = us + (filler + stem if side == 0 else stem + filler)
+			# suffix side keeps the word as it is (`late__init__`); on the prefix side leading underscores would change the accessibility class
+			new = us + (filler + (word if not us else word.strip('_')) if side == 0 else (word.lstrip('_') or 'init') + filler)
 			if new in taken or not IDENT_RE.fullmatch(new) or not reserved.fresh_ok(new, x, kind):
 				continue
 			mapping[x] = new
@@ -1304,6 +1336,7 @@ def generate_pairs_program(rng: random.Random, avoid: Any = ()) -> str:
 		'\tdef __init__(self, n: int) -> None:',
 		f'\t\tself.{f1} = n',
 		f'\t\tself.{f2} = n + 1',
+		f'\t\tself.{m1}(n)',
 		'',
 		f'\tdef {m1}(self, {c1}: int) -> int:',
 		f'\t\t{c2} = self.{f1} + {c1}',
@@ -1316,6 +1349,10 @@ def generate_pairs_program(rng: random.Random, avoid: Any = ()) -> str:
 		f'\t\treturn self.{m1}(self.{f2})',
 		'',
 		f'class {sub}({cls}):',
+		'\tdef __init__(self, n: int) -> None:',
+		'\t\tsuper().__init__(n)',
+		f'\t\tself.{m3}()',
+		'',
 		f'\tdef {m3}(self) -> int:',
 		f'\t\treturn self.{m2}() + self.{f1}',
 		'',
@@ -1339,6 +1376,55 @@ def generate_pairs_program(rng: random.Random, avoid: Any = ()) -> str:
 	for b in chosen:
 		lines += b
 	lines += [f'\tprint({sub}({o1}).{m3}())', f'\treturn {o1} + {o2}']
+	# lists of user names that are EMITTED IN AN ORDER: type parameters of a class, of a method, of a class method and of a free
+	# function (declared and first used in an order that is not alphabetical as often as not), enum members, parameters
+	tvs = [w for w in ['T_Rhs', 'T_Lhs', 'T_Elem', 'T_Acc', 'T_Node', 'T_Got', 'T_Src', 'T_Dst', 'T_Mid'] if w not in avoid]
+	tvs += [f'T_V{i}w' for i in range(3 - len(tvs))]
+	ta, tb, tc = r.sample(tvs, 3)
+	duo, rack = r.choice([('Duo', 'Stack'), ('Couple', 'Bin'), ('Twin', 'Tray')])
+	en = r.choice(['Tone', 'Phase', 'Mood'])
+	em = r.sample(['Warm', 'Cold', 'Dim', 'Lit', 'Raw_1', 'Bold'], 3)
+	ga, gb, gm, gk, gf, gx, gy = r.sample([w for w in ['near', 'far', 'lhs_v', 'rhs_v', 'couple_up', 'assemble', 'pair_of', 'one_side', 'other_side', 'kept', 'holds'] if w not in avoid], 7)
+	generic = [
+		'',
+		f"{ta} = TypeVar('{ta}')",
+		f"{tb} = TypeVar('{tb}')",
+		f"{tc} = TypeVar('{tc}')",
+		'',
+		f'class {en}(Enum):',
+		*[f'\t{m} = {i + 1}' for i, m in enumerate(em)],
+		'',
+		f'class {duo}(Generic[{ta}, {tb}]):',
+		f'\t{ga}: {ta}',
+		f'\t{gb}: {tb}',
+		'',
+		f'\tdef __init__(self, {gx}: {ta}, {gy}: {tb}) -> None:',
+		f'\t\tself.{ga} = {gx}',
+		f'\t\tself.{gb} = {gy}',
+		'',
+		f'class {rack}(Generic[{tc}]):',
+		f'\t{gk}: {tc}',
+		'',
+		f'\tdef __init__(self, {gk}: {tc}) -> None:',
+		f'\t\tself.{gk} = {gk}',
+		'',
+		f'\tdef {gm}(self, {gx}: {ta}, {gy}: {tb}) -> {duo}[{ta}, {tb}]:',
+		f'\t\treturn {duo}({gx}, {gy})',
+		'',
+		'\t@classmethod',
+		f'\tdef {gf}(cls, {gx}: {tb}, {gy}: {ta}) -> {duo}[{tb}, {ta}]:',
+		f'\t\treturn {duo}({gx}, {gy})',
+		'',
+		f'def {gm}_free({gx}: {ta}, {gy}: {tb}) -> {duo}[{ta}, {tb}]:',
+		f'\treturn {duo}({gx}, {gy})',
+		'',
+		f'def {en.lower()}_of(n: int) -> {en}:',
+		'\tif n > 1:',
+		f'\t\treturn {en}.{em[1]}',
+		f'\treturn {en}.{em[0]}',
+	]
+	lines[0:1] = ['from collections.abc import Callable', 'from typing import Generic, TypeVar', 'from enum import Enum']
+	lines += generic
 	src = '\n'.join(lines) + '\n'
 	ast.parse(src)
 	return src
